@@ -21,6 +21,7 @@ from pest.grammar.rule import SILENT_ATOMIC
 from .expression import Expression
 from .optimizers.inliners import inline_builtin
 from .optimizers.inliners import inline_silent_rules
+from .optimizers.skippers import never_skips_trivia
 from .optimizers.skippers import skip
 from .optimizers.squash_choice import order_is_preserved
 from .optimizers.squash_choice import squash
@@ -29,6 +30,7 @@ from .optimizers.unroller import unroll
 
 OptimizerPass: TypeAlias = Callable[[Expression, Mapping[str, Rule]], Expression]
 OptimizerPassPredicate: TypeAlias = Callable[[Mapping[str, Rule]], bool]
+OptimizerRulePredicate: TypeAlias = Callable[[Rule, Mapping[str, Rule]], bool]
 
 
 class PassDirection(Enum):
@@ -52,6 +54,9 @@ class OptimizerStep:
         predicate: If not `None`, the predicate is called with the rules to
             be optimized as its only argument. The step will be skipped if the
             predicate returns `False`.
+        rule_predicate: If not `None`, the predicate is called with each rule
+            and the rules to be optimized. The step is not applied to rules
+            for which it returns `False`.
 
     """
 
@@ -60,11 +65,14 @@ class OptimizerStep:
     direction: PassDirection
     fixed_point: bool = False
     predicate: OptimizerPassPredicate | None = None
+    rule_predicate: OptimizerRulePredicate | None = None
 
 
 DEFAULT_OPTIMIZER_PASSES = [
     OptimizerStep("unroll", unroll, PassDirection.POSTORDER),
-    OptimizerStep("skip", skip, PassDirection.PREORDER),
+    OptimizerStep(
+        "skip", skip, PassDirection.PREORDER, rule_predicate=never_skips_trivia
+    ),
     OptimizerStep("inline built-in", inline_builtin, PassDirection.PREORDER),
     OptimizerStep("squash_choice", squash_choice, PassDirection.POSTORDER),
     OptimizerStep("inline silent", inline_silent_rules, PassDirection.POSTORDER),
@@ -103,7 +111,9 @@ class Optimizer:
                     # parsers built without an optimizer.
                     continue
 
-                # TODO: some passes should only be applied to atomic rules
+                if step.rule_predicate and not step.rule_predicate(rule, rules):
+                    continue
+
                 expr = rule.expression
 
                 if step.fixed_point:
